@@ -131,6 +131,15 @@ func checkC12(p *Prog, c *Check) {
 	c.Rule("R12.1", "pairing: for every exported SetX(v) with an accessor X(), on every abstract receiver state and every abstract argument value, X() after SetX(v) returns v (for SetQoS: v for 0..3, 0 otherwise)")
 	c.Rule("R12.2", "frame: SetX changes the result of no other zero-argument accessor of the type, on every abstract state (so a later call of another setter cannot disturb it: last write wins for any sequence)")
 	c.Rule("R12.3", "derived flags: CONNECT's user-name / password flags are set exactly when the value set is non-empty; after SetWill(w) the will flag is set, will retain equals w.Retain() and the will-QoS bits encode w.QoS() (0..2)")
+	c.Rule("R12.4", "setter calls on one packet cannot change another packet or the caller's data: no list field that may hold the caller's own slice is grown in place, and no packet is copied by value (shared with C14 R14.7/R14.8)")
+	{
+		sub := NewCheck(c.ID, p)
+		rulePacketsByPointerOnly(p, sub, "R12.4")
+		ruleNoAppendOntoCallerStorage(p, sub, "R12.4")
+		for _, o := range sub.Obls {
+			c.add("R12.4", o.Construct, o.Pos, o.Status, o.Detail)
+		}
+	}
 	c.Explanation = "Each setter is a transition function and each accessor a decision function over the receiver's fields; both are evaluated on the SSA form over abstract states (all 256 values of every flag byte the setter reads, zero and all-ones backgrounds for the rest) and abstract arguments (all values of booleans and bytes, boundary values of wider integers, lengths 0/1/2 with an identity tag for strings and slices). Pairing plus frame give last-write-wins for every finite setter sequence by induction."
 	c.Trusted = []string{"go/types + go/ssa (x/tools v0.29.0) faithful IR", "abstract domains as listed; strings and slices are represented by length and identity (their bytes are never inspected by setters/accessors)"}
 	c.NotDecided = []string{"lossless-ness of conversions outside the C01 domain (SetSubscriptionID(int) beyond uint)", "adders (AddUserProp, AddFilters, AddReasonCode, AddSubscriptionID): covered by C01's completeness rule, not by this evaluation", "that the encoded frame reflects the final state (C01 R1.3)"}
